@@ -601,6 +601,48 @@ def _real_parse_line(data: bytes) -> str:
         return "none"
 
 
+def scte35_fixed() -> list:
+    """fixed list (not left to the seed): 0/1/2/3 descriptors x 0/1/2/3 components, descriptor_length and
+    section_length exactly at their field limits (255, 4095) and one below, upid opaque-byte classes"""
+    base = dict(table_id=0xFC, section_syntax_indicator=False, private_indicator=False, sap_type=3,
+                protocol_version=0, encrypted_packet=False, encryption_algorithm=0, pts_adjustment=0,
+                cw_index=0xFF, tier=0xFFF)
+
+    def ins(ncomp):
+        return {"splice_insert": dict(splice_event_id=1, cancel=False, out_of_network_indicator=True,
+                                      splice_immediate_flag=False, splice_time="x",
+                                      components=[(i, None if i % 2 else 2 ** 33 - 1 - i) for i in range(ncomp)],
+                                      break_duration=(True, 1), unique_program_id=65535, avail_num=255,
+                                      avails_expected=255)}
+
+    def seg(upid, typ=0x35, duration=None):
+        return ("seg", S.CUEI, dict(S.SEG_DEFAULT, event_id=2 ** 32 - 1, upid=bytes(upid), upid_type=8, type=typ,
+                                    duration=duration))
+    out = []
+    for nd in range(4):
+        for nc in range(4):
+            ds = [("avail", S.CUEI, 2 ** 32 - 1), seg(b"\x00" * 8), ("time", S.CUEI, 2 ** 48 - 1, 2 ** 32 - 1, 65535)][:nd]
+            out.append(dict(base, command=ins(nc), descriptors=ds))
+    # upid classes: empty, one byte, all zero, box-header-like, 0xFF.., maximal (descriptor_length 255 / 254)
+    # seg descriptor body without upid: 4 (identifier) + 11 bytes (type 0x35, no duration) -> upid 240 gives 255
+    for upid in (b"", b"\x00", b"\x00" * 16, b"\x00\x00\x00\x10emsg", b"\xff" * 31, bytes(range(240)), bytes(range(239))):
+        out.append(dict(base, command={"time_signal": 0}, descriptors=[seg(upid)]))
+    # section_length 4095 and 4094: 14 (fixed part incl. CRC... computed by the real encoder) – fill with
+    # maximal descriptors and trim the last upid until the real section_length hits the target
+    for target in (4095, 4094):
+        ds = [seg(bytes(240)) for _ in range(15)]
+        sig = dict(base, command=None, descriptors=ds + [seg(b"")])
+        for n in range(241):
+            sig["descriptors"][-1] = seg(bytes(n))
+            try:
+                if S.to_real(sig).encode()[1] & 0x0F == target >> 8 and S.to_real(sig).encode()[2] == target & 0xFF:
+                    out.append(json.loads(json.dumps(S.norm(sig))))
+                    break
+            except Exception:
+                break
+    return [S.signal_from_json(S.norm(x)) for x in out]
+
+
 def ch_scte35(ctx):
     ch = Channel("scte35", rule=(
         "generated splice_info_sections (every header field and every command/descriptor field at 0, 1, "
@@ -611,11 +653,24 @@ def ch_scte35(ctx):
         "splice_null or at least one descriptor; distinct by encoded bytes"))
     rng = ctx.rng("scte35")
     sigs = [S.signal_from_json(j) for j in corpus_json("scte35")]
+    try:
+        fixed = scte35_fixed()
+        ch.count("fixed grid signals", len(fixed))
+        sigs += fixed
+    except Exception as e:
+        ch.errors.append(f"scte35_fixed: {type(e).__name__}: {e}")
     sigs += [S.gen_signal(rng) for _ in range(ctx.scale(2500, 30000))]
     datas = []
-    for sig in sigs:
+    for i, sig in enumerate(sigs):
         try:
-            datas.append(S.to_real(sig).encode())
+            obj = S.to_real(sig)
+            if i % 3 == 0:
+                # read-only API calls between construction and encode must not change the result
+                repr(obj)
+                str(obj)
+                obj.toJSON()
+                list(obj)
+            datas.append(obj.encode())
         except Exception as e:
             datas.append(None)
             ch.oracle_failures.append({"channel": "scte35", "signal": S.norm(sig),
@@ -701,14 +756,55 @@ def corpus_cases(kind: str) -> list:
     return corpus_json(kind)
 
 
+def class_state():
+    """class-level / module-level mutable objects of the code under test (defaults shared by every
+    instance): a case must not leave anything behind in them"""
+    import copy
+    from dashlive.scte35 import descriptors as D
+    from dashlive.scte35.binarysignal import BinarySignal
+    from dashlive.scte35.splice_insert import SpliceInsert
+    from dashlive.server.events.base import EventBase
+    from dashlive.server.events.factory import EventFactory
+    from dashlive.server.events.ping_pong import PingPongEvents
+    from dashlive.server.events.repeating_event_base import RepeatingEventBase
+    from dashlive.server.events.scte35_events import Scte35Events
+    objs = {"EventBase.DEFAULT_VALUES": EventBase.DEFAULT_VALUES,
+            "PingPongEvents.DEFAULT_VALUES": PingPongEvents.DEFAULT_VALUES,
+            "Scte35Events.DEFAULT_VALUES": Scte35Events.DEFAULT_VALUES,
+            "RepeatingEventBase.MAX_EVENTS_PER_SEGMENT": RepeatingEventBase.MAX_EVENTS_PER_SEGMENT,
+            "EventFactory.EVENT_TYPES": sorted(EventFactory.EVENT_TYPES),
+            "BinarySignal.DEFAULT_VALUES": BinarySignal.DEFAULT_VALUES,
+            "SpliceInsert.DEFAULT_VALUES": SpliceInsert.DEFAULT_VALUES,
+            "SpliceDescriptor.TAGS": sorted(D.SpliceDescriptor.TAGS)}
+    for cls in (D.AvailDescriptor, D.SegmentationDescriptor, D.TimeDescriptor):
+        objs[f"{cls.__name__}.DEFAULT_VALUES"] = cls.DEFAULT_VALUES
+    return {k: repr(copy.deepcopy(v)) for k, v in objs.items()}
+
+
+def guarded(ctx, ch_fn):
+    """run a channel function; a change of the shared class-level state is an oracle failure of it"""
+    try:
+        before = class_state()
+    except Exception as e:
+        before = None
+        err = f"class_state: {type(e).__name__}: {e}"
+    res = ch_fn(ctx)
+    chans = res if isinstance(res, list) else [res]
+    if before is None:
+        chans[0].errors.append(err)
+    else:
+        after = class_state()
+        for k in before:
+            if before[k] != after[k]:
+                chans[0].oracle_failures.append({"channel": chans[0].name, "kind": "class-state", "failures": [
+                    f"{k} was modified while the channel ran: {before[k][:150]} -> {after[k][:150]}"]})
+    return chans
+
+
 def channels(ctx):
-    yield ch_crc(ctx)
-    for ch in ch_emsg(ctx):
-        yield ch
-    yield ch_oob(ctx)
-    yield ch_evopt(ctx)
-    yield ch_scte35(ctx)
-    yield ch_e2e(ctx)
+    for fn in (ch_crc, ch_emsg, ch_oob, ch_evopt, ch_scte35, ch_e2e):
+        for ch in guarded(ctx, fn):
+            yield ch
 
 
 def search(ctx, disagreements):
